@@ -17,6 +17,7 @@
 #include <foonathan/memory/memory_pool.hpp>
 #include <foonathan/memory/memory_pool_collection.hpp>
 #include <foonathan/memory/memory_resource_adapter.hpp>
+#include <foonathan/memory/memory_stack.hpp>
 #include <foonathan/memory/segregator.hpp>
 #include <foonathan/memory/smart_ptr.hpp>
 #include <functional>
@@ -214,21 +215,46 @@ namespace
     // ---- tracker that logs ------------------------------------------------------------------------
     struct log_tracker
     {
+        // a callback that reaches a tracker object that no longer exists (stale pointer kept by a deeply
+        // tracked block allocator across a move) shows as alive = false
+        unsigned magic = 0xA11CEu;
+        log_tracker() = default;
+        log_tracker(const log_tracker&) noexcept : magic(0xA11CEu) {}
+        log_tracker& operator=(const log_tracker&) noexcept
+        {
+            return *this;
+        }
+        ~log_tracker()
+        {
+            magic = 0xDEADu;
+        }
+        bool alive() const noexcept
+        {
+            return magic == 0xA11CEu;
+        }
         void on_node_allocation(void*, std::size_t sz, std::size_t al) noexcept
         {
-            Ev("trk").s("op", "na").u("n", 1).u("sz", sz).u("al", al);
+            Ev("trk").s("op", "na").u("n", 1).u("sz", sz).u("al", al).b("alive", alive());
         }
         void on_array_allocation(void*, std::size_t n, std::size_t sz, std::size_t al) noexcept
         {
-            Ev("trk").s("op", "aa").u("n", n).u("sz", sz).u("al", al);
+            Ev("trk").s("op", "aa").u("n", n).u("sz", sz).u("al", al).b("alive", alive());
         }
         void on_node_deallocation(void*, std::size_t sz, std::size_t al) noexcept
         {
-            Ev("trk").s("op", "nd").u("n", 1).u("sz", sz).u("al", al);
+            Ev("trk").s("op", "nd").u("n", 1).u("sz", sz).u("al", al).b("alive", alive());
         }
         void on_array_deallocation(void*, std::size_t n, std::size_t sz, std::size_t al) noexcept
         {
-            Ev("trk").s("op", "ad").u("n", n).u("sz", sz).u("al", al);
+            Ev("trk").s("op", "ad").u("n", n).u("sz", sz).u("al", al).b("alive", alive());
+        }
+        void on_allocator_growth(void*, std::size_t sz) noexcept
+        {
+            Ev("trk").s("op", "gr").u("n", 1).u("sz", sz).u("al", 0).b("alive", alive());
+        }
+        void on_allocator_shrinking(void*, std::size_t sz) noexcept
+        {
+            Ev("trk").s("op", "sh").u("n", 1).u("sz", sz).u("al", 0).b("alive", alive());
         }
     };
 
@@ -255,6 +281,11 @@ namespace
         // move assignment into a differently configured object of the same type and move construction
         // back: the composition must behave as before (its configuration and referenced allocators travel)
         virtual bool xfer()
+        {
+            return false;
+        }
+        // shrink_to_fit of a library stack inside the composition
+        virtual bool shrink()
         {
             return false;
         }
@@ -476,6 +507,52 @@ namespace
         }
     };
 
+    // deeply tracked library allocators: the tracker also sees the blocks the arena takes and returns
+    using deep_pool  = fm::deeply_tracked_allocator<log_tracker, fm::memory_pool<fm::node_pool, raw_up>>;
+    using deep_apool = fm::deeply_tracked_allocator<log_tracker, fm::memory_pool<fm::array_pool, raw_up>>;
+    using deep_coll  = fm::deeply_tracked_allocator<log_tracker, fm::memory_pool_collection<fm::node_pool, fm::log2_buckets, raw_up>>;
+    using deep_stack = fm::deeply_tracked_allocator<log_tracker, fm::memory_stack<raw_up>>;
+    template <class A>
+    struct DeepComp : Comp<A>
+    {
+        using Base = Comp<A>;
+        using Base::Base;
+        long long pool_free(std::size_t sz) override
+        {
+            return free_of(this->a.get_allocator(), sz);
+        }
+        bool shrink() override
+        {
+            return shrink_of(this->a.get_allocator());
+        }
+        template <class P>
+        static long long free_of(P& p, std::size_t)
+        {
+            return static_cast<long long>(p.capacity_left());
+        }
+        template <class P>
+        static auto free_of_coll(P& p, std::size_t sz) -> decltype(p.pool_capacity_left(sz), 0ll)
+        {
+            return sz >= 1 && sz <= p.max_node_size() ? static_cast<long long>(p.pool_capacity_left(sz)) : -1;
+        }
+        template <class T, class D, class B>
+        static long long free_of(fm::memory_pool_collection<T, D, B>& p, std::size_t sz)
+        {
+            return free_of_coll(p, sz);
+        }
+        template <class P>
+        static bool shrink_of(P&)
+        {
+            return false;
+        }
+        template <class B>
+        static bool shrink_of(fm::memory_stack<B>& st)
+        {
+            st.shrink_to_fit();
+            return true;
+        }
+    };
+
     // objects referenced by reference-storage compositions must outlive them
     leaf<1>   g_l1;
     leaf<2>   g_l2;
@@ -486,7 +563,7 @@ namespace
     struct Made
     {
         std::unique_ptr<IComp> c;
-        bool                   fallback = false, tracker = false, mixed = false;
+        bool                   fallback = false, tracker = false, mixed = false, stk = false, deep = false;
         std::shared_ptr<void>  keep; // referenced objects
     };
 
@@ -649,6 +726,38 @@ namespace
             g_leaf[1].shrinking_max = true;
             g_leaf[1].cap           = 1024;
         }
+        else if (name == "deep_pool")
+        {
+            m.c.reset(spare(new DeepComp<deep_pool>(fm::make_deeply_tracked_allocator<fm::memory_pool<fm::node_pool, raw_up>>(
+                                log_tracker{}, 16u, fm::memory_pool<fm::node_pool, raw_up>::min_block_size(16, 3), raw_up())),
+                            []
+                            {
+                                return fm::make_deeply_tracked_allocator<fm::memory_pool<fm::node_pool, raw_up>>(
+                                    log_tracker{}, 32u, fm::memory_pool<fm::node_pool, raw_up>::min_block_size(32, 2), raw_up());
+                            }));
+            m.tracker = m.mixed = m.deep = true;
+        }
+        else if (name == "deep_apool")
+        {
+            m.c.reset(new DeepComp<deep_apool>(fm::make_deeply_tracked_allocator<fm::memory_pool<fm::array_pool, raw_up>>(
+                log_tracker{}, 16u, fm::memory_pool<fm::array_pool, raw_up>::min_block_size(16, 4), raw_up())));
+            m.tracker = m.mixed = m.deep = true;
+        }
+        else if (name == "deep_coll")
+        {
+            m.c.reset(new DeepComp<deep_coll>(
+                fm::make_deeply_tracked_allocator<fm::memory_pool_collection<fm::node_pool, fm::log2_buckets, raw_up>>(
+                    log_tracker{}, 64u, 1200u, raw_up())));
+            m.tracker = m.mixed = m.deep = true;
+        }
+        else if (name == "deep_stack")
+        {
+            // (make_deeply_tracked_allocator<memory_stack<...>> does not compile: it list-initialises the
+            // allocator from its arguments and memory_stack's constructor is explicit)
+            m.c.reset(spare(new DeepComp<deep_stack>(log_tracker{}, deep_stack::allocator_type(200u, raw_up())),
+                            [] { return deep_stack(log_tracker{}, deep_stack::allocator_type(333u, raw_up())); }));
+            m.tracker = m.mixed = m.deep = m.stk = true;
+        }
         else if (name == "fb_pool")
         {
             m.c.reset(spare(new PoolFb<fixed_pool>(fixed_pool(16, fixed_pool::min_block_size(16, 6), raw_up()), leaf<3>{}),
@@ -688,6 +797,8 @@ namespace
             .b("fb", m.fallback)
             .b("trk", m.tracker)
             .b("mixed", m.mixed)
+            .b("stk", m.stk)
+            .b("deep", m.deep)
             .b("composable", m.c ? m.c->composable() : false);
         if (!m.c)
             return;
@@ -735,6 +846,13 @@ namespace
                 }
                 Ev("sret").i("id", id).s("r", r).i("h", h).i("b", blk).i("off", off).u("n", cnt).u("sz", sz).u("al", al).u(
                     "mis", p && al ? reinterpret_cast<std::uintptr_t>(p) % al : 0);
+                continue;
+            }
+            if (op == "shr")
+            {
+                bool        did = false;
+                std::string r   = classify([&] { did = c.shrink(); });
+                Ev("cshrink").s("r", r).b("did", did);
                 continue;
             }
             if (op == "xm")
